@@ -560,6 +560,10 @@ func (a *IPAllocator) SetAllocation(subscriberID string, prefix *net.IPNet) erro
 			a.bitmap.SetBit(a.bitmap, int(oldIdx), 0)
 			delete(a.indexToSubscriber, oldIdx)
 			a.allocatedCount.Sub(a.allocatedCount, big.NewInt(1))
+			// Keep the hint at or below the lowest free index (as Release does)
+			if oldIdx < a.nextFree.Uint64() {
+				a.nextFree.SetUint64(oldIdx)
+			}
 		}
 	}
 
